@@ -1,0 +1,16 @@
+//go:build !verif
+// +build !verif
+
+package rsec16
+
+func verifFork(numWorkers, outRows, dataLength int) {}
+
+func verifEnter(i int) {}
+
+func verifExit(i int) {}
+
+func verifStep(outStart, outEnd, dataStart, dataEnd, row, col int) {}
+
+func verifJoin() {}
+
+func verifJoined() {}
